@@ -2,6 +2,7 @@
 import json, os, time
 from common import *
 import chan_l
+import chan_v
 
 L_PROPS = {"C01", "C02", "C03", "C12", "C13", "C18", "C19", "C20"}
 
@@ -61,6 +62,8 @@ def decide(prop, tier, seed, replay=None):
     with Lock():
         if prop in L_PROPS:
             return decide_L(prop, tier, seed, t0, replay)
+        if prop in V_PROPS:
+            return decide_V(prop, tier, seed, t0, replay)
     print(f"unknown property {prop}")
     return 2
 
@@ -84,6 +87,80 @@ def determinism_L(seed):
         res["detail"] = f"{a[k][:200]} vs {b[k][:200]}"
         res["requests"] = req[start:end]
     return res
+
+
+V_PROPS = {"C08", "C09", "C10"}
+
+
+def decide_V(prop, tier, seed, t0, replay):
+    pr = proof_side(prop, tier)
+    ok, out = chan_v.build()
+    if not ok:
+        path = write_replay(prop, "build", "harness does not build against /repo:\n" + out[-3000:])
+        print(f"VIOLATION property={prop} replay={path} no-failing-input-found")
+        return 1
+    if replay:
+        lines = [l for l in open(replay).read().splitlines() if l.startswith("vec ")]
+        d = os.path.join(WORK, "replayV")
+        dirs = []
+        for prof, b in chan_v.bins().items():
+            dd = os.path.join(d, prof + "-replay"); os.makedirs(dd, exist_ok=True)
+            open(os.path.join(dd, "script.txt"), "w").write("\n".join(lines) + "\n")
+            r = chan_v._run((prof, b, "file:" + os.path.join(dd, "script.txt"), 0, 0, dd))
+            if "error" not in r:
+                dirs.append(dd)
+        info = {"dirs": dirs, "errors": [], "cached": False}
+    else:
+        info = chan_v.run(seed, tier)
+    an = chan_v.analyse(info["dirs"])
+    oracle = [o for o in an["oracle"] if o["property"] == prop]
+    if prop in ("C08", "C09"):
+        for z in an["zst_bad"]:
+            oracle.append({"property": prop, "message": f"zero-size elements: {z['impl']} expected {z['expected']}", "request": "zst " + z["script"], "impl": z["impl"], "profile": z["profile"]})
+    proof_ok = not pr["problems"]
+    tie_ok = an.get("n_disagree", 0) == 0 and not info["errors"]
+    rc = 0; violations = 0; lines = []
+    if oracle:
+        o = oracle[0]
+        body = (f"# kind: implementation-vs-oracle (the real code breaks {prop} on this input; profile {o['profile']})\n# {o['message']}\n"
+                f"# implementation answered: {o['impl']}\n# {len(oracle)} failing scripts in this run\n{o['request']}\n")
+        path = write_replay(prop, "oracle", body)
+        lines.append(f"VIOLATION property={prop} replay={path}")
+        violations = len(oracle); rc = 1
+    elif not proof_ok or not tie_ok:
+        what = []
+        if not proof_ok:
+            what.append("proof obligations that no longer check: " + " | ".join(pr["problems"])[:2000])
+        body = "# kind: model-vs-implementation / proof break, no failing input found\n"
+        if not tie_ok:
+            d = an["disagreements"][0] if an["disagreements"] else None
+            what.append(f"correspondence channel V: {an.get('n_disagree', 0)} scripts disagree; errors {info['errors'][:2]}")
+            if d:
+                what.append(f"profile {d['profile']}\n#   impl : {d['impl']}\n#   model: {d['model']}")
+        body += "# " + "\n# ".join(what) + "\n"
+        if not tie_ok and an["disagreements"]:
+            body += an["disagreements"][0]["request"] + "\n"
+        path = write_replay(prop, "tie", body)
+        lines.append(f"VIOLATION property={prop} replay={path} no-failing-input-found")
+        violations = 1; rc = 1
+    cov = {
+        "obligations": pr["obligations"], "discharged": pr["discharged"],
+        "checker_cmd": f"cd lean/TrucModel && lake build TrucModel.Props.{prop} && lake env lean <#print axioms of each theorem>",
+        "trusted_base": TRUSTED + ["ConverterContract: the converter owns its input (hypothesis of the model; the scripted converters satisfy it and the ledger confirms it)",
+                                   "Vec::set_len / transmute of the Vec modelled as 'same allocation, length first_moved'"],
+        "theorems": pr["theorems"], "axioms": pr["axioms"], "proof_problems": pr["problems"],
+        "evaluations": an["scripts"], "distinct_nontrivial": an["nontrivial"],
+        "rule": f"scripts = (element type pair, length, outcome per call) run through the real try_convert_vec_in_place in a debug and an optimised build and through the Lean slot machine; exhaustive for lengths <= {info.get('maxlen')} over 8 outcomes (exhaustive: true refers to that sub-space) plus random long scripts; distinct by request text; non-trivial = length >= 2 with >= 2 different outcomes",
+        "samples": an["samples"][:3], "traces_validated_against_impl": an["scripts"], "disagreements": an.get("n_disagree", 0),
+        "oracle_hits": len(oracle), "outcome_kinds": an["by_kind"], "scripts_by_length": an["by_len"], "zero_size_scripts": an["zst"],
+        "channel_cached": info.get("cached", False), "exhaustive": True,
+    }
+    write_evidence(prop, tier, seed, cov, ["converter contract", "drop order inside one phase is not compared (multisets per phase)"], time.time() - t0, violations)
+    for l in lines:
+        print(l)
+    if rc == 0:
+        print(f"OK property={prop} theorems={pr['discharged']}/{pr['obligations']} scripts={an['scripts']} disagreements=0")
+    return rc
 
 
 def fmt_history(h):
